@@ -14,6 +14,12 @@ use std::slice;
 pub struct SampledChance {
     index: WeightedAliasIndex<f64>,
     cached: usize,
+    #[cfg(cfr_verif)]
+    vid: usize,
+    #[cfg(cfr_verif)]
+    vpass: u64,
+    #[cfg(cfr_verif)]
+    vprobs: Vec<f64>,
 }
 
 impl SampledChance {
@@ -22,6 +28,12 @@ impl SampledChance {
         SampledChance {
             index: WeightedAliasIndex::new(probs.to_vec()).unwrap(),
             cached: 0,
+            #[cfg(cfr_verif)]
+            vid: crate::verif::next_chance_id(),
+            #[cfg(cfr_verif)]
+            vpass: 0,
+            #[cfg(cfr_verif)]
+            vprobs: probs.to_vec(),
         }
     }
 
@@ -30,7 +42,14 @@ impl SampledChance {
     /// This will return the same value on successive calls until reset is called
     pub fn sample(&mut self) -> usize {
         if self.cached == 0 {
+            #[cfg(cfr_verif)]
+            if let Some(res) = crate::verif::chance_draw(self.vid, self.vpass, &self.vprobs) {
+                self.cached = res + 1;
+                return res;
+            }
             let res = self.index.sample(&mut thread_rng());
+            #[cfg(cfr_verif)]
+            crate::verif::observe_chance(self.vid, self.vpass, &self.vprobs, res);
             self.cached = res + 1;
             res
         } else {
@@ -40,6 +59,10 @@ impl SampledChance {
 
     /// Reset the infoset allowing different samples
     pub fn reset(&mut self) {
+        #[cfg(cfr_verif)]
+        {
+            self.vpass += 1;
+        }
         self.cached = 0;
     }
 }
